@@ -93,7 +93,7 @@ func containsStr(s, sub string) bool {
 func HarnessC15Panic(st any) {
 	s := st.(*c15State)
 	pv := sym.Choose("value", nPanicValues)
-	progress := sym.Choose("progress", 4) // 0 nothing, 1 header only, 2 partial body, 3 flushed only
+	progress := sym.Choose("progress", 5) // 0 nothing, 1 header only, 2 partial body, 3 flushed only, 4 protocol switch (101) only
 	val, abort, broken := panicValue(pv)
 	s.behave = func(c fox.Context) {
 		switch progress {
@@ -103,6 +103,8 @@ func HarnessC15Panic(st any) {
 			_, _ = c.Writer().Write([]byte("ab"))
 		case 3:
 			_ = c.Writer().FlushError()
+		case 4:
+			c.Writer().WriteHeader(http.StatusSwitchingProtocols)
 		}
 		if pv == 8 {
 			var m map[string]int
@@ -129,7 +131,7 @@ func HarnessC15Panic(st any) {
 
 	wantFinals, wantBody := 0, ""
 	switch progress {
-	case 1, 3:
+	case 1, 3, 4:
 		wantFinals = 1
 	case 2:
 		wantFinals, wantBody = 1, "ab"
@@ -153,6 +155,10 @@ func HarnessC15Panic(st any) {
 			sym.Assert(len(g.finals) == wantFinals && string(g.body) == wantBody, "an already started response (or a broken connection) is left untouched")
 			if wantFinals == 1 && progress == 1 {
 				sym.Assert(g.finals[0] == 202, "the started response keeps its status")
+			}
+			if progress == 4 && len(g.finals) == 1 {
+				sym.Cover("panic after a protocol switch")
+				sym.Assert(g.finals[0] == 101, "a switched (101) response is left untouched")
 			}
 			if progress == 3 && len(g.finals) == 1 {
 				sym.Assert(g.finals[0] == 200, "a flushed response keeps its status")
@@ -264,7 +270,9 @@ func SetupC15Txn() any { return SetupC15Panic() }
 func HarnessC15Txn(st any) {
 	s := st.(*c15State)
 	k := sym.Param("k")
-	mode := sym.Choose("mode", 3) // 0 Updates inside a handler, 1 Updates called directly, 2 View inside a handler
+	// 0 Updates inside a handler, 1 Updates called directly, 2 View inside a handler,
+	// 3 / 4 a single-operation write (Handle / Update) that panics while the route is being built, inside a handler
+	mode := sym.Choose("mode", 5)
 	at := sym.Choose("at", k+1)   // the panic is raised after this many steps
 	ops := make([]int, k)
 	for i := 0; i < k; i++ {
@@ -284,15 +292,24 @@ func HarnessC15Txn(st any) {
 		}
 		panic(customPanic{k})
 	}
-	if mode == 2 {
+	if mode >= 2 {
 		for i := 0; i < k; i++ {
 			sym.Assume(ops[i] == 0) // the steps of a View are reads: one representative
 		}
 	}
+	if mode >= 3 {
+		sym.Assume(at == 0)
+	}
+	panicMW := func(next fox.HandlerFunc) fox.HandlerFunc { panic(customPanic{0}) }
 	s.behave = func(c fox.Context) {
-		if mode == 2 {
+		switch mode {
+		case 2:
 			_ = c.Fox().View(fn)
-		} else {
+		case 3:
+			_, _ = c.Fox().Handle("GET", "/boom", noopHandler, fox.WithMiddleware(panicMW))
+		case 4:
+			_, _ = c.Fox().Update("GET", "/ok", noopHandler, fox.WithMiddleware(panicMW))
+		default:
 			_ = c.Fox().Updates(fn)
 		}
 	}
@@ -309,10 +326,13 @@ func HarnessC15Txn(st any) {
 		sym.Assert(escaped == nil, "a panic inside a managed transaction run by a handler never escapes ServeHTTP")
 		sym.Assert(len(g.finals) == 1 && g.finals[0] == 500, "500 when nothing had been written")
 		sym.Assert(len(s.sink.recs) == 1, "one diagnostic record per recovered panic")
-		if mode == 0 {
+		switch mode {
+		case 0:
 			sym.Cover("panic inside Updates in a handler")
-		} else {
+		case 2:
 			sym.Cover("panic inside View in a handler")
+		default:
+			sym.Cover("panic inside a single-operation write in a handler")
 		}
 	}
 	// the routes are unchanged: by pattern, by count, by iteration and by routing
